@@ -50,6 +50,7 @@ type exCall struct {
 }
 
 type exRun struct {
+	rejected    atomic.Int64 // invalid (panicking, recovered) calls made in between
 	c           *core.Ctx
 	e           *bigbuff.Exclusive
 	keys        int
@@ -316,13 +317,25 @@ func runExclusive(c *core.Ctx, keys, callers, perCaller int) *exRun {
 				r.calls = append(r.calls, call)
 				r.mu.Unlock()
 				r.issue(call, rng)
+				if rng.IntN(16) == 0 {
+					// a call the documentation rejects (nil work), recovered by its caller: no effect on anybody else
+					k := rng.IntN(keys)
+					core.Recover(func() {
+						if rng.IntN(2) == 0 {
+							r.e.Call(k, nil)
+						} else {
+							r.e.CallWithOptions(bigbuff.ExclusiveKey(k))
+						}
+					})
+					r.rejected.Add(1)
+				}
 				if rng.IntN(3) == 0 {
 					time.Sleep(time.Duration(rng.IntN(200)) * time.Microsecond)
 				}
 			}
 		}()
 	}
-	if !core.AwaitDone(core.Go(wg.Wait), 60000) {
+	if !core.AwaitDone(core.Go(wg.Wait), 20000) {
 		r.problem("answer", "caller-blocked", "callers did not finish:\n%s", core.DumpAll())
 		return r
 	}
@@ -461,5 +474,5 @@ func (r *exRun) summary() map[string]any {
 			coalesced++
 		}
 	}
-	return map[string]any{"keys": r.keys, "calls": len(r.calls), "executions": len(r.execs), "calls_whose_function_never_ran": coalesced, "styles": styles}
+	return map[string]any{"keys": r.keys, "calls": len(r.calls), "executions": len(r.execs), "calls_whose_function_never_ran": coalesced, "styles": styles, "rejected_invalid_calls": r.rejected.Load()}
 }
